@@ -4,10 +4,17 @@
 def register(prop, J):
     prop("C15",
          rule="rapid-generated (base URL x context path x root name x encoded resource path x query); non-trivial = context "
-              "path non-empty or path/query holds a %XX, dot segment or ROR2 delimiter; distinct by (base, path, query)",
+              "path non-empty or path/query holds a %XX, dot segment or ROR2 delimiter; distinct by (base, path, query); generated "
+              "clients: any call of C02's corpus (two in three on a sub-resource) under a resolver whose context path is plain, ends "
+              "with the root resource name or shares a prefix with it; non-trivial = sub-resource or non-plain context",
          jobs=[
              J("url-v2", "v2", "urlprops", "^TestC15", checks=(30000, 22500000), shards=(2, 16)),
              J("url-v1", "v1", "urlprops", "^TestC15", checks=(15000, 7500000), shards=(1, 16)),
+             # (appended: the position of a job determines its derived seeds) the root name generated clients hand to the library
+             J("generated-v2", "v2", "resprops", "^TestC15", checks=(3000, 600000), shards=(2, 16), prepare="prepare_resources",
+               extra_pkgs=["dyn", "gendrv"], timeout=(900, 3000)),
+             J("generated-v1", "v1", "resprops", "^TestC15", checks=(3000, 600000), shards=(2, 16), prepare="prepare_resources",
+               extra_pkgs=["dyn", "gendrv"], timeout=(900, 3000)),
          ],
          level_text="generated-input search against a URL model written from the property text: every generated (base URL, "
                     "encoded path, query) must come out byte-identical in scheme, host, escaped path, raw query and request target; "
